@@ -6,12 +6,41 @@
 // `EndpointType` is renamed to `EndpointType` (a nested module triggers an internal Verus error)
 //@ splice-item quic/s2n-quic-core/src/endpoint/mod.rs "pub enum Type" derive=Clone,Copy,PartialEq,Eq,Structural "subst=pub enum Type=>pub enum EndpointType"
 //@ splice-item quic/s2n-quic-core/src/stream/type_.rs "pub enum StreamType" derive=Clone,Copy,PartialEq,Eq,Structural
-//@ splice-item quic/s2n-quic-core/src/stream/id.rs "pub struct StreamId("
+//@ splice-item quic/s2n-quic-core/src/stream/id.rs "pub struct StreamId(" derive=PartialEq,Eq,PartialOrd,Ord,Copy,Clone,Structural "subst=(VarInt)=>(pub VarInt)"
 
-impl Clone for StreamId { fn clone(&self) -> Self { StreamId(self.0) } }
-impl Copy for StreamId {}
+// TRUSTED (language semantics): derived PartialOrd/Ord on the single-field tuple struct StreamId(VarInt) is the
+// order of the field, i.e. of the u64 inside.
+impl vstd::std_specs::cmp::PartialOrdSpecImpl for StreamId {
+    open spec fn obeys_partial_cmp_spec() -> bool { true }
+    open spec fn partial_cmp_spec(&self, other: &StreamId) -> Option<core::cmp::Ordering> {
+        if self.0.0 < other.0.0 { Some(core::cmp::Ordering::Less) } else if self.0.0 == other.0.0 { Some(core::cmp::Ordering::Equal) } else { Some(core::cmp::Ordering::Greater) }
+    }
+}
+impl vstd::std_specs::cmp::OrdSpecImpl for StreamId {
+    open spec fn obeys_cmp_spec() -> bool { true }
+    open spec fn cmp_spec(&self, other: &StreamId) -> core::cmp::Ordering {
+        if self.0.0 < other.0.0 { core::cmp::Ordering::Less } else if self.0.0 == other.0.0 { core::cmp::Ordering::Equal } else { core::cmp::Ordering::Greater }
+    }
+}
 
-spec fn type_bits(initiator: EndpointType, stream_type: StreamType) -> int {
+// ambient bit-vector facts for the two type bits (proved by Z3's bit-vector theory, made available to the
+// verbatim bodies, which cannot carry proof annotations)
+mod bits {
+use vstd::prelude::*;
+pub broadcast proof fn lemma_bit0(x: u64)
+    ensures #[trigger] (x & 1u64) == x % 2,
+{
+    assert((x & 1u64) == x % 2) by (bit_vector);
+}
+pub broadcast proof fn lemma_bit1(x: u64)
+    ensures #[trigger] (x & 2u64) == 2 * ((x / 2) % 2),
+{
+    assert((x & 2u64) == 2 * ((x / 2) % 2)) by (bit_vector);
+}
+}
+broadcast use {bits::lemma_bit0, bits::lemma_bit1};
+
+pub open spec fn type_bits(initiator: EndpointType, stream_type: StreamType) -> int {
     (if stream_type == StreamType::Bidirectional { 0int } else { 2int }) + (if initiator == EndpointType::Client { 0int } else { 1int })
 }
 
@@ -34,4 +63,17 @@ impl StreamId {
 //@| ensures
 //@|     self.0.0 + 4 <= MAX_VARINT_VALUE ==> ret is Some && ret->Some_0.0.0 == self.0.0 + 4,
 //@|     self.0.0 + 4 > MAX_VARINT_VALUE ==> ret is None,
+
+//@ splice-fn quic/s2n-quic-core/src/stream/id.rs "StreamId" initiator vis=strip "subst=endpoint::Type=>EndpointType@@Into::<u64>::into(self.0)=>self.0.as_u64()"
+//@| ensures ret == (if self.0.0 % 2 == 0 { EndpointType::Client } else { EndpointType::Server }),
+
+//@ splice-fn quic/s2n-quic-core/src/stream/id.rs "StreamId" stream_type vis=strip "subst=Into::<u64>::into(self.0)=>self.0.as_u64()"
+//@| ensures ret == (if (self.0.0 / 2) % 2 == 0 { StreamType::Bidirectional } else { StreamType::Unidirectional }),
+}
+
+// the type bits recovered from an id are its two low bits: id == 4 * (id / 4) + type_bits(initiator(id), stream_type(id))
+proof fn lemma_type_bits_of_id(id: u64)
+    ensures type_bits(if id % 2 == 0 { EndpointType::Client } else { EndpointType::Server },
+                      if (id / 2) % 2 == 0 { StreamType::Bidirectional } else { StreamType::Unidirectional }) == id % 4,
+{
 }
